@@ -60,13 +60,17 @@ fn main() {
             if args.len() < 4 {
                 usage();
             }
-            std::process::exit(supervisor::check(&args[2], parse_tier(&args[3])));
+            let rc = supervisor::check(&args[2], parse_tier(&args[3]));
+            let _ = std::fs::remove_dir_all(clock::campaign_scratch_parent());
+            std::process::exit(rc);
         }
         "replay" => {
             if args.len() < 3 {
                 usage();
             }
-            std::process::exit(supervisor::replay(&args[2]));
+            let rc = supervisor::replay(&args[2]);
+            let _ = std::fs::remove_dir_all(clock::campaign_scratch_parent());
+            std::process::exit(rc);
         }
         "worker" => {
             if args.len() < 5 {
